@@ -522,7 +522,8 @@ def denoteDirective (name : AttrName) (value : Node) : DDir :=
 /-- an expression that can stand on the left of `=` (JavaScript's simple assignment targets, looking through parentheses and
     TypeScript's type-only wrappers) -/
 def specAssignable : Node → Bool
-  | .mk .ident _ _ => true
+  -- a module is strict code, in which `eval` and `arguments` are not assignment targets (ECMA-262 13.15.1)
+  | .mk .ident as _ => as.head? != some "eval" && as.head? != some "arguments"
   | .mk .member _ _ => true
   | .mk (.other "SuperPropExpression") _ _ => true
   | .mk .paren _ [e] => specAssignable e
